@@ -1,7 +1,8 @@
 (* C09 — evaluation of generated cases: model vs observed implementation output, and the checker. *)
 From Dastard Require Import Common.ZX Common.CaseLib Pipeline.Stream C09.Model C09.Spec.
 
-Record case := { c_cfg : config; c_hist : list (op * obs) }.
+(* c_init = the GROUPTRIGGER state broadcast when the run starts (before any request) *)
+Record case := { c_cfg : config; c_init : list (Z * Z); c_hist : list (op * obs) }.
 
 (* reported pairs are compared as sets: both sides are sorted (the harness sorts what the implementation's
    map yields; the model's list order is an artefact too) *)
@@ -16,7 +17,7 @@ Definition psort (l : list (Z * Z)) : list (Z * Z) := fold_right pinsert [] l.
 
 Definition obs_eqb (a b : obs) : bool :=
   match a, b with
-  | ORep x cx, ORep y cy => list_eqb pair_eqb (psort x) (psort y) && (cx =? cy)
+  | ORep x cx tx, ORep y cy ty => list_eqb pair_eqb (psort x) (psort y) && (cx =? cy) && (tx =? ty)
   | OSec x, OSec y => list_eqb (list_eqb record_eqb) x y
   | OCrash, OCrash => true
   | _, _ => false
@@ -33,16 +34,18 @@ Definition verdict (c : case) : Z * Z :=
   let ops := map fst (c_hist c) in
   let impl := map snd (c_hist c) in
   let model := run (c_cfg c) ops in
-  let d := first_diff 0 impl model in
-  (verdict_code (d =? -1) (C09_check (c_cfg c) (c_hist c)), d).
+  let d := if list_eqb pair_eqb (psort (c_init c)) (m_view (init_state (cf_n (c_cfg c))))
+           then first_diff 0 impl model else 0 in
+  (verdict_code (d =? -1)
+     (report_ok (cf_n (c_cfg c)) rel_empty (c_init c) && C09_check (c_cfg c) (c_hist c)), d).
 
 (* compact constructors for generated files *)
 Definition mkrec (frame time pre : Z) (data : list Z) (signed : bool) : record :=
   {| r_frame := frame; r_time := time; r_pre := pre; r_data := data; r_signed := signed |}.
-Definition Ad (c : list (Z * list Z)) (rep : list (Z * Z)) (cnt : Z) : op * obs := (OEdit (EAdd c), ORep rep cnt).
-Definition De (c : list (Z * list Z)) (rep : list (Z * Z)) (cnt : Z) : op * obs := (OEdit (EDel c), ORep rep cnt).
-Definition St (rep : list (Z * Z)) (cnt : Z) : op * obs := (OEdit EStop, ORep rep cnt).
-Definition Co (status : Z) (rep : list (Z * Z)) (cnt : Z) : op * obs := (OEdit (ECouple status), ORep rep cnt).
+Definition Ad (c : list (Z * list Z)) (rep : list (Z * Z)) (cnt coup : Z) : op * obs := (OEdit (EAdd c), ORep rep cnt coup).
+Definition De (c : list (Z * list Z)) (rep : list (Z * Z)) (cnt coup : Z) : op * obs := (OEdit (EDel c), ORep rep cnt coup).
+Definition St (rep : list (Z * Z)) (cnt coup : Z) : op * obs := (OEdit EStop, ORep rep cnt coup).
+Definition Co (status : Z) (rep : list (Z * Z)) (cnt coup : Z) : op * obs := (OEdit (ECouple status), ORep rep cnt coup).
 Definition mkblk (first time period : Z) (chans : list (list Z * bool)) : block :=
   {| blk_first := first; blk_time := time; blk_period := period; blk_chans := chans |}.
 Definition Cy (first time period : Z) (chans : list (list Z * bool)) (prims : list (list Z))
@@ -52,6 +55,6 @@ Definition CyX (first time period : Z) (chans : list (list Z * bool)) (prims : l
   (OCycle (mkblk first time period chans) prims, OCrash).
 (* an edit whose answer could not be observed *)
 Definition EdX (e : edit) : op * obs := (OEdit e, OCrash).
-Definition mk (lancero : bool) (n npre nsamp : Z) (h : list (op * obs)) : case :=
+Definition mk (lancero : bool) (n npre nsamp : Z) (init : list (Z * Z)) (h : list (op * obs)) : case :=
   {| c_cfg := {| cf_kind := if lancero then Lancero else Generic; cf_n := n; cf_npre := npre; cf_nsamp := nsamp |};
-     c_hist := h |}.
+     c_init := init; c_hist := h |}.
